@@ -2,15 +2,21 @@
    Only statements, each closed by [exact] of a lemma from PV.Proofs.Retry.
 
    Vocabulary (PV.Model.Retry):
-     att_exc ns pl i        exception class with which attempt i+1 of a task ends while the job lock is
-                            held (None = the attempt succeeds); ns = the operations the task performs on
-                            its own context, pl = the fault plan of the partition
-     rec_of ns xs pl i      the attempt-log entry of attempt i+1 on input xs;  task_log .. n = entries 1..n
-     exhausts maxr p        the first maxr attempts of partition p all fail
-     all_ok maxr ps         no partition of ps exhausts
-     run_task / run_job / run_jobs     _run_task, one driver-level job (datasets + action), a job sequence
-   The statements hold for every max_retries >= 1 (the property asks for 1..4), every fault plan, every
-   number of partitions, both executors (mode 0 local, otherwise pooled) and every job history. *)
+     held                   the lock flag the tasks of a job see ([held_of action]: true for every job-triggering
+                            method except the toLocalIterator family, whose tasks run after runJob has returned)
+     att_exc held ns pl i   exception class with which attempt i+1 of a task ends (None = the attempt succeeds);
+                            ns = the operations the task performs on its own context, pl = the fault plan
+     rec_of held ns xs pl i the attempt-log entry of attempt i+1 on input xs;  task_log .. n = entries 1..n
+     cached j p             what a persisted dataset above the injected stage holds for partition p
+     exhausts held maxr j p the first maxr attempts of partition p all fail (never for a cached partition)
+     all_ok held maxr j ps  no partition of ps exhausts
+     cache_sound j          every cache entry is the fault-free output of the injected stage
+     run_task / run_job / run_lazy_job / run_jobs     _run_task, one whole-partition job (datasets + action), one
+                            lazy job (take/first/isEmpty), a sequence of job requests (fresh or on the dataset
+                            object of the previous job)
+   The statements hold for every max_retries >= 1 (the property asks for 1..4), every fault plan, every lineage
+   of ops (persist included), every number of partitions, both executors (mode 0 local, otherwise pooled) and
+   every job history. *)
 From Coq Require Import String ZArith List Bool.
 Require Import PV.Base.Val PV.Gen.Retry PV.Model.Retry PV.Proofs.Retry.
 Import ListNotations.
@@ -25,165 +31,200 @@ Theorem C04_kernel_lock_tests : forall b, job_refused b = b /\ rdd_init_refused 
 Proof. exact lock_tests_spec. Qed.
 Theorem C04_kernel_lock_protocol : lock_on_entry = true /\ lock_after_ok = false /\ lock_after_error = false.
 Proof. exact lock_protocol_spec. Qed.
+Theorem C04_kernel_held : forall a, held_of a = negb ((act_class a =? 1) && tli_deferred).
+Proof. exact held_of_spec. Qed.
 
 (* ---- retry: first success at attempt k+1 <= max_retries: the task returns the fault-free output of the
    partition, after exactly k+1 attempts (the log is the entries of attempts 1..k+1) *)
-Theorem C04_retry_success : forall maxr fuel ns xs pl k,
+Theorem C04_retry_success : forall maxr fuel held ns xs pl k,
   Z.of_nat k < maxr -> (k < fuel)%nat ->
-  (forall i, (i < k)%nat -> att_exc ns pl i <> None) -> att_exc ns pl k = None ->
-  run_task fuel maxr true ns xs pl 0 = (TOk xs, task_log ns xs pl (S k), true).
+  (forall i, (i < k)%nat -> att_exc held ns pl i <> None) -> att_exc held ns pl k = None ->
+  run_task fuel maxr held ns xs pl 0 = (TOk xs, task_log held ns xs pl (S k), held).
 Proof. exact retry_success. Qed.
 
 (* all of the first max_retries attempts fail: the task's own exception (the one of attempt number
    max_retries) after exactly max_retries attempts *)
-Theorem C04_retry_exhausted : forall maxr fuel ns xs pl e,
+Theorem C04_retry_exhausted : forall maxr fuel held ns xs pl e,
   1 <= maxr -> (Z.to_nat maxr <= fuel)%nat ->
-  (forall i, (i < Z.to_nat maxr)%nat -> att_exc ns pl i <> None) ->
-  att_exc ns pl (Z.to_nat maxr - 1) = Some e ->
-  run_task fuel maxr true ns xs pl 0 = (TErr e maxr, task_log ns xs pl (Z.to_nat maxr), true).
+  (forall i, (i < Z.to_nat maxr)%nat -> att_exc held ns pl i <> None) ->
+  att_exc held ns pl (Z.to_nat maxr - 1) = Some e ->
+  run_task fuel maxr held ns xs pl 0 = (TErr e maxr, task_log held ns xs pl (Z.to_nat maxr), held).
 Proof. exact retry_exhausted. Qed.
 
 (* every attempt is computed from scratch: it is numbered i+1, it pulls a prefix of the partition starting
    at the first element whatever the earlier attempts did, a successful attempt sees the whole partition,
-   and every operation it tries on its own context is refused *)
-Theorem C04_attempt_from_scratch : forall ns xs pl i,
-  a_no (rec_of ns xs pl i) = Z.of_nat i + 1 /\
-  a_out (rec_of ns xs pl i) = att_exc ns pl i /\
-  (exists n, a_seen (rec_of ns xs pl i) = firstn n xs) /\
-  (att_exc ns pl i = None -> a_seen (rec_of ns xs pl i) = xs) /\
-  a_nest (rec_of ns xs pl i) = refusals ns /\ Forall (fun o => o = 0) (refusals ns).
+   and while the lock is held every operation it tries on its own context is refused *)
+Theorem C04_attempt_from_scratch : forall held ns xs pl i,
+  a_no (rec_of held ns xs pl i) = Z.of_nat i + 1 /\
+  a_out (rec_of held ns xs pl i) = att_exc held ns pl i /\
+  (exists n, a_seen (rec_of held ns xs pl i) = firstn n xs) /\
+  (att_exc held ns pl i = None -> a_seen (rec_of held ns xs pl i) = xs) /\
+  a_nest (rec_of held ns xs pl i) = nest_outcomes held ns /\ Forall (fun o => o = 0) (nest_outcomes true ns).
 Proof. exact attempt_from_scratch. Qed.
 
-(* ---- jobs.  The action returns a value iff every partition has a success within the budget, and the
-   value is then exactly the fault-free result (plain evaluation of the pipeline on the partition data) *)
-Theorem C04_job_result : forall mode maxr j, 1 <= maxr ->
-  ((exists v, o_res (fst (run_job mode maxr false j)) = JOk v) <-> all_ok maxr (j_parts j) = true)
+(* whatever the fuel and the budget: a task that returns hands on exactly its fault-free input, every
+   successful attempt in its log saw the whole partition, and the lock flag is what it was *)
+Theorem C04_task_never_truncates : forall fuel maxr held ns xs pl a0 t log lk,
+  run_task fuel maxr held ns xs pl a0 = (t, log, lk) ->
+  lk = held /\ (forall ys, t = TOk ys -> ys = xs) /\
+  (forall r, In r log -> a_out r = None -> a_seen r = xs) /\
+  (forall r, In r log -> a_nest r = nest_outcomes held ns).
+Proof. exact run_task_general. Qed.
+
+(* ---- jobs (every job-triggering method that evaluates whole partitions).  The method returns a value iff
+   every partition has a success within the budget, and the value is then exactly the fault-free result
+   (plain evaluation of the lineage on the partition data) -- persisted datasets included *)
+Theorem C04_job_result : forall mode maxr j, 1 <= maxr -> cache_sound j ->
+  ((exists v, o_res (fst (run_job mode maxr false j)) = JOk v) <-> all_ok (held_of (j_action j)) maxr j (j_parts j) = true)
   /\ (forall v, o_res (fst (run_job mode maxr false j)) = JOk v -> v = plain_result j).
 Proof. exact job_result_iff. Qed.
 
-Theorem C04_job_ok : forall mode maxr j, 1 <= maxr -> all_ok maxr (j_parts j) = true ->
+Theorem C04_job_ok : forall mode maxr j, 1 <= maxr -> cache_sound j ->
+  all_ok (held_of (j_action j)) maxr j (j_parts j) = true ->
   exists logs, run_job mode maxr false j = (mkOut (JOk (plain_result j)) logs, false)
-               /\ Forall2 (task_log_ok maxr j) (j_parts j) logs.
+               /\ Forall2 (task_log_ok (held_of (j_action j)) maxr j) (j_parts j) logs.
 Proof. exact job_ok. Qed.
 
 (* otherwise the caller receives the exception of the first exhausting partition (partition order), raised
    by its attempt number max_retries; locally the later partitions are never started *)
 Theorem C04_job_error : forall mode maxr j pre p post e, 1 <= maxr ->
-  j_parts j = pre ++ p :: post -> all_ok maxr pre = true -> exhausts maxr p = true ->
-  att_exc (p_nest p) (p_plan p) (Z.to_nat maxr - 1) = Some e ->
+  j_parts j = pre ++ p :: post -> all_ok (held_of (j_action j)) maxr j pre = true ->
+  exhausts (held_of (j_action j)) maxr j p = true ->
+  att_exc (held_of (j_action j)) (p_nest p) (p_plan p) (Z.to_nat maxr - 1) = Some e ->
   exists logs, run_job mode maxr false j = (mkOut (JErr e (Z.of_nat (length pre)) maxr) logs, false)
-               /\ logs_ok mode maxr j pre p post logs.
+               /\ logs_ok mode (held_of (j_action j)) maxr j pre p post logs.
 Proof. exact job_err. Qed.
 
-Theorem C04_job_total : forall mode maxr j, 1 <= maxr ->
+Theorem C04_job_total : forall mode maxr j, 1 <= maxr -> cache_sound j ->
   o_res (fst (run_job mode maxr false j)) = JOk (plain_result j)
   \/ exists e i, o_res (fst (run_job mode maxr false j)) = JErr e i maxr.
 Proof. exact job_total. Qed.
 
-(* ---- nested use of the context.  Every dataset creation / action attempted by any task of any job is
-   refused (invariant: the lock flag stays set from the acquire to the finally) *)
-Theorem C04_nested_refused : forall mode maxr j, 1 <= maxr ->
+(* ---- persisted datasets: whatever a job does, what it leaves in the cache is fault-free output (a failed
+   attempt leaves nothing behind), so later jobs on the same dataset object start from sound entries *)
+Theorem C04_cache_stays_sound : forall mode maxr j, cache_sound j ->
+  cache_sound (after_job j (fst (run_any mode maxr false j))).
+Proof. exact after_job_sound. Qed.
+
+(* ---- nested use of the context.  Full statement: every dataset creation / action attempted by any task of
+   any job is refused.  It holds for every job whose tasks run while runJob holds the lock ... *)
+Definition C04_nested_refused_full : Prop := forall mode maxr j,
+  nested_all_refused (o_logs (fst (run_job mode maxr false j))).
+
+Theorem C04_nested_refused_partial : forall mode maxr j, held_of (j_action j) = true ->
   nested_all_refused (o_logs (fst (run_job mode maxr false j))).
 Proof. exact nested_refused. Qed.
+Theorem C04_nested_refused_locked_class : forall a, act_class a = 0 -> held_of a = true.
+Proof. exact held_of_class0. Qed.
+
+(* ... and is false for the methods built on toLocalIterator(): the generator it returns is consumed after
+   runJob has released the lock, so the tasks run on an idle context and every nested operation is ACCEPTED
+   (open finding toLocalIterator:nested-accepted; replay corpus/C04/tolocaliterator_nested_accepted.json) *)
+Theorem C04_nested_after_lock_accepted : forall mode maxr j, held_of (j_action j) = false ->
+  nested_all_accepted (o_logs (fst (run_job mode maxr false j))).
+Proof. exact nested_accepted_after_lock. Qed.
+Theorem C04_nested_refused_refuted : tli_deferred = true -> ~ C04_nested_refused_full.
+Proof. exact nested_refused_refuted. Qed.
 
 (* a refusal that the task lets escape is a task failure like any other: ContextIsLockedException reaches
    the caller after max_retries attempts *)
-Theorem C04_nested_uncaught_surfaces : forall mode maxr j pre p post, 1 <= maxr ->
-  j_parts j = pre ++ p :: post -> all_ok maxr pre = true -> uncaught (p_nest p) = true ->
+Theorem C04_nested_uncaught_surfaces : forall mode maxr j pre p post, 1 <= maxr -> held_of (j_action j) = true ->
+  j_parts j = pre ++ p :: post -> all_ok true maxr j pre = true -> cached j p = None -> uncaught (p_nest p) = true ->
   exists logs, run_job mode maxr false j = (mkOut (JErr E_LOCKED (Z.of_nat (length pre)) maxr) logs, false).
 Proof. exact nested_uncaught_surfaces. Qed.
 
 (* a job started while another one holds the lock is refused, starts no task and leaves the lock alone *)
 Theorem C04_refused_while_locked : forall mode maxr j,
-  run_job mode maxr true j = (mkOut JRefused (no_logs (j_parts j)), true).
-Proof. exact run_job_locked. Qed.
-
-Theorem C04_refused_while_locked_any : forall mode maxr j,
   run_any mode maxr true j = (mkOut JRefused (no_logs (j_parts j)), true).
 Proof. exact any_refused_while_locked. Qed.
 
 (* ---- the lazily evaluated take / first / isEmpty (the property's parenthesis).  They return what they
-   return on the fault-free element stream, or an error reaches the caller; a generator task function is
-   never retried (the error is the one of a first attempt and no partition is attempted twice), an eager
-   one goes through the ordinary retry; nested operations are refused here too *)
-Theorem C04_lazy_actions : forall maxr j, 1 <= maxr ->
+   return on the fault-free element stream, or an error reaches the caller; a generator task function that
+   nothing above it materialises is never retried (the error is the one of a first attempt and no partition is
+   attempted twice), otherwise the ordinary retry applies; nested operations are refused here too *)
+Theorem C04_lazy_actions : forall maxr j, 1 <= maxr -> cache_sound j ->
   let o := fst (run_lazy_job maxr false j) in
   (o_res o = lazy_plain_result j
-   \/ exists e i a, o_res o = JErr e i a /\ (if j_eager j then a = maxr else a = 1))
-  /\ (j_eager j = false -> Forall (fun l => (length l <= 1)%nat) (o_logs o))
+   \/ exists e i a, o_res o = JErr e i a /\ (if lazy_eager j then a = maxr else a = 1))
+  /\ (lazy_eager j = false -> Forall (fun l => (length l <= 1)%nat) (o_logs o))
   /\ nested_all_refused (o_logs o).
 Proof. exact lazy_actions. Qed.
 
 (* ---- the context stays usable.  Whatever a job does (succeeds, fails, has refused nested operations),
    it leaves the lock released ... *)
-Theorem C04_lock_released : forall mode maxr j, snd (run_job mode maxr false j) = false.
-Proof. exact lock_released. Qed.
-
-(* ... so every job of a sequence behaves as on a fresh context ... *)
-Theorem C04_lock_released_any : forall mode maxr j, snd (run_any mode maxr false j) = false.
+Theorem C04_lock_released : forall mode maxr j, snd (run_any mode maxr false j) = false.
 Proof. exact any_lock_released. Qed.
 
-(* (run_any = run_job for the actions that evaluate whole partitions, the lazy take/first/isEmpty otherwise) *)
-Theorem C04_usable_after : forall mode maxr js,
-  run_jobs mode maxr false js = (map (fun j => fst (run_any mode maxr false j)) js, false).
-Proof. exact usable_after. Qed.
+(* ... so in every sequence of job requests on an idle context (fresh datasets or the dataset object of the
+   previous job) every job runs as on an idle context, on sound cache entries, and the context ends idle ... *)
+Theorem C04_usable_after : forall mode maxr rqs prev idx, Forall fresh_ok rqs -> prev_sound prev ->
+  snd (run_jobs mode maxr false prev idx rqs) = false /\
+  Forall (triple_ok mode maxr) (fst (run_jobs mode maxr false prev idx rqs)).
+Proof. exact sequence_idle. Qed.
 
-Theorem C04_usable_after_history : forall mode maxr history j d,
-  nth (length history) (fst (run_jobs mode maxr false (history ++ [j]))) d = fst (run_any mode maxr false j).
-Proof. exact usable_after_history. Qed.
-
-(* ... and a follow-up job whose partitions all succeed within the budget returns the correct result *)
-Theorem C04_followup_correct : forall mode maxr history j, 1 <= maxr ->
-  is_lazy (j_action j) = false -> all_ok maxr (j_parts j) = true ->
-  o_res (nth (length history) (fst (run_jobs mode maxr false (history ++ [j]))) (mkOut JFuel [])) = JOk (plain_result j).
-Proof. exact followup_correct. Qed.
-
-(* ---- the property in one statement: for every sequence of jobs on an idle context, every job that
-   evaluates whole partitions satisfies [job_spec] (result / error / logs / nested refusals), whatever
-   happened in the jobs before it, and the context ends idle *)
-Theorem C04_sequence : forall mode maxr js, 1 <= maxr ->
-  let outs := fst (run_jobs mode maxr false js) in
-  length outs = length js /\ snd (run_jobs mode maxr false js) = false /\
-  forall k j, nth_error js k = Some j -> is_lazy (j_action j) = false ->
-    exists o, nth_error outs k = Some o /\ job_spec mode maxr j o.
+(* ... every whole-partition job of the sequence satisfies the property clause by clause ([job_spec]: result /
+   error + logs / nested refusals when the lock is held) ... *)
+Theorem C04_sequence : forall mode maxr rqs, 1 <= maxr -> Forall fresh_ok rqs ->
+  snd (run_jobs mode maxr false None 0 rqs) = false /\
+  Forall (fun '(_, j, o) => is_lazy (j_action j) = false -> job_spec mode maxr j o)
+         (fst (run_jobs mode maxr false None 0 rqs)).
 Proof. exact sequence_spec. Qed.
+
+(* ... and a fresh follow-up job whose partitions all succeed within the budget returns the correct result *)
+Theorem C04_followup_correct : forall mode maxr history j, 1 <= maxr -> Forall fresh_ok history -> fresh_ok (mkReq j false) ->
+  is_lazy (j_action j) = false -> all_ok (held_of (j_action j)) maxr j (j_parts j) = true ->
+  exists origin j' o, last (fst (run_jobs mode maxr false None 0 (history ++ [mkReq j false]))) (0, j, mkOut JFuel []) = (origin, j', o)
+                      /\ j' = j /\ o_res o = JOk (plain_result j).
+Proof. exact followup_correct. Qed.
 
 (* ---- non-vacuity / sanity *)
 Definition ex_fail (e p : Z) : option fault := Some (mkFault e p).
-Definition ex_part1 := mkPart [1; 2; 3] [ex_fail 0 1; ex_fail 2 0] [].                 (* fails twice, then succeeds *)
-Definition ex_part2 := mkPart [4; 5] [ex_fail 1 2; ex_fail 1 2; ex_fail 2 1; None] []. (* fails three times *)
-Definition ex_part3 := mkPart [6] [] [mkNop NAction true; mkNop NCreate false].        (* nested: caught, then escaping *)
-Definition ex_job (ps : list part) := mkJob 0 false 1 2 ps.
+Definition ex_p (d : list Z) (pl : plan) (ns : list nop) := mkPart d pl ns None 0.
+Definition ex_part1 := ex_p [1; 2; 3] [ex_fail 0 1; ex_fail 2 0] [].                 (* fails twice, then succeeds *)
+Definition ex_part2 := ex_p [4; 5] [ex_fail 1 2; ex_fail 1 2; ex_fail 2 1; None] []. (* fails three times *)
+Definition ex_part3 := ex_p [6] [] [mkNop NAction true; mkNop NCreate false].        (* nested: caught, then escaping *)
+Definition ex_job (ps : list part) := mkJob 0 false [1] [2] ps.
 
 Example ex_success :   (* max_retries 3: third attempt succeeds; collect of ((x+1)*2) *)
   run_job 0 3 false (ex_job [ex_part1]) =
     (mkOut (JOk (vints [4; 6; 8]))
            [[mkRec 1 [] [2] (Some 0); mkRec 2 [] [] (Some 2); mkRec 3 [] [2; 3; 4] None]], false)
-  /\ all_ok 3 [ex_part1] = true /\ all_ok 2 [ex_part1] = false.
+  /\ all_ok true 3 (ex_job []) [ex_part1] = true /\ all_ok true 2 (ex_job []) [ex_part1] = false.
 Proof. vm_compute. repeat split. Qed.
 
 Example ex_exhausted :   (* local: partition 1 gives up after 3 attempts, partition 2 is never started *)
   o_res (fst (run_job 0 3 false (ex_job [ex_part1; ex_part2; ex_part1]))) = JErr 2 1 3
   /\ map (@length arec) (o_logs (fst (run_job 0 3 false (ex_job [ex_part1; ex_part2; ex_part1])))) = [3; 3; 0]%nat
   /\ map (@length arec) (o_logs (fst (run_job 1 3 false (ex_job [ex_part1; ex_part2; ex_part1])))) = [3; 3; 3]%nat
-  /\ exhausts 3 ex_part2 = true /\ exhausts 4 ex_part2 = false.
+  /\ exhausts true 3 (ex_job []) ex_part2 = true /\ exhausts true 4 (ex_job []) ex_part2 = false.
 Proof. vm_compute. repeat split. Qed.
 
 Example ex_nested :
   run_job 0 2 false (ex_job [ex_part3]) =
     (mkOut (JErr E_LOCKED 0 2) [[mkRec 1 [0; 0] [] (Some 3); mkRec 2 [0; 0] [] (Some 3)]], false)
-  /\ uncaught (p_nest ex_part3) = true.
-Proof. vm_compute. split; reflexivity. Qed.
+  /\ uncaught (p_nest ex_part3) = true /\ held_of 0 = true.
+Proof. vm_compute. repeat split. Qed.
 
-Example ex_sequence :   (* a failing job, then a job with a recoverable fault, on the same context *)
-  map o_res (fst (run_jobs 0 2 false [ex_job [ex_part2]; ex_job [ex_part3]; mkJob 2 true 0 0 [mkPart [1; 2] [ex_fail 0 0] []]]))
-  = [JErr 1 0 2; JErr E_LOCKED 0 2; JOk (VInt 3)].
+Example ex_nested_after_lock :   (* toLocalIterator (action 39): the same task is not refused anything *)
+  tli_deferred = true ->
+  run_job 0 2 false (mkJob 39 false [] [] [ex_part3]) =
+    (mkOut (JOk (vints [6])) [[mkRec 1 [1; 1] [6] None]], false) /\ held_of 39 = false.
+Proof. intros Hd. vm_compute in Hd. first [discriminate Hd | vm_compute; split; reflexivity]. Qed.
+
+Example ex_persist_reuse :
+  (* cache() above the injected stage, fault mid-partition, retry; then sum of x*2 on the same dataset object:
+     nothing is recomputed (no log entries), the result is that of the full partitions *)
+  map (fun '(_, _, o) => (o_res o, map (@length arec) (o_logs o)))
+      (fst (run_jobs 0 3 false None 0
+              [mkReq (mkJob 0 false [] [9] [ex_p [0; 1; 2; 3] [] []; ex_p [4; 5; 6; 7] [ex_fail 0 1] []]) false;
+               mkReq (mkJob 2 false [] [2] []) true]))
+  = [(JOk (vints [0; 1; 2; 3; 4; 5; 6; 7]), [1; 2]%nat); (JOk (VInt 56), [0; 0]%nat)].
 Proof. vm_compute. reflexivity. Qed.
 
 Example ex_lazy :   (* take(2): the generator of partition 0 fails after its first element; no retry.  take(1) is served
                        before the failure.  An eager task function is retried and take(2) succeeds. *)
-  o_res (fst (run_any 0 3 false (mkJob 11 false 0 0 [ex_part1; ex_part2]))) = JErr 0 0 1
-  /\ o_res (fst (run_any 0 3 false (mkJob 10 false 0 0 [ex_part1; ex_part2]))) = JOk (vints [1])
-  /\ o_res (fst (run_any 0 3 false (mkJob 11 true 0 0 [ex_part1; ex_part2]))) = JOk (vints [1; 2])
-  /\ lazy_plain_result (mkJob 11 false 0 0 [ex_part1; ex_part2]) = JOk (vints [1; 2]).
+  o_res (fst (run_any 0 3 false (mkJob 11 false [] [] [ex_part1; ex_part2]))) = JErr 0 0 1
+  /\ o_res (fst (run_any 0 3 false (mkJob 10 false [] [] [ex_part1; ex_part2]))) = JOk (vints [1])
+  /\ o_res (fst (run_any 0 3 false (mkJob 11 true [] [] [ex_part1; ex_part2]))) = JOk (vints [1; 2])
+  /\ lazy_plain_result (mkJob 11 false [] [] [ex_part1; ex_part2]) = JOk (vints [1; 2]).
 Proof. vm_compute. repeat split. Qed.
